@@ -203,17 +203,29 @@ func patByte(idx, j, salt int) byte {
 	return byte(idx + 1 + j*31 + (idx>>8)*7 + (j>>8)*13 + salt*57)
 }
 
+// stamp / stamped compute patByte incrementally (j*31 + (j>>8)*13 grows by 31 per byte and by 13 more at every
+// multiple of 256).
 func stamp(b []byte, idx, salt int) {
+	v := patByte(idx, 0, salt)
 	for j := range b {
-		b[j] = patByte(idx, j, salt)
+		if j&255 == 0 && j > 0 {
+			v += 13
+		}
+		b[j] = v
+		v += 31
 	}
 }
 
 func stamped(b []byte, idx, salt int) int {
+	v := patByte(idx, 0, salt)
 	for j := range b {
-		if b[j] != patByte(idx, j, salt) {
+		if j&255 == 0 && j > 0 {
+			v += 13
+		}
+		if b[j] != v {
 			return j
 		}
+		v += 31
 	}
 	return -1
 }
@@ -237,7 +249,13 @@ type mon struct {
 	pos   []int32 // position in list or -1
 	offs  []int64
 
-	visit func(string)
+	visit func(tclass)
+
+	// fastProbe selects the cheap form of the reopen probe (see reopenBytes); lightOOB limits the out-of-range
+	// probes of full() to one of the four per call. Both exist only to keep millions of enumerated nodes affordable.
+	fastProbe bool
+	lightOOB  bool
+	oobTurn   int
 }
 
 func (m *mon) mark(idx int) {
@@ -258,7 +276,7 @@ func (m *mon) unmark(idx int) {
 	m.n--
 }
 
-func (m *mon) bits() uint64 { // only meaningful for count <= 48
+func (m *mon) bits() uint64 { // only meaningful for count <= 64
 	var b uint64
 	for i, a := range m.alloc {
 		if a {
@@ -347,12 +365,15 @@ func (m *mon) where(blk []byte, idx int) (int64, *vio) {
 }
 
 // getBlock calls Block(idx) for an in-range idx and checks everything local to that block.
-func (m *mon) getBlock(idx int) ([]byte, *vio) {
-	var blk []byte
-	var err error
-	if p := guard(func() { blk, err = m.bks.Block(idx) }); p != nil {
+func (m *mon) getBlock(idx int) (blk []byte, v *vio) {
+	if p := guard(func() { blk, v = m.getBlockUnguarded(idx) }); p != nil {
 		return nil, vf("blocks/Block/panic", "Block(%d) panicked: %v (count=%d)", idx, p, m.count)
 	}
+	return blk, v
+}
+
+func (m *mon) getBlockUnguarded(idx int) ([]byte, *vio) {
+	blk, err := m.bks.Block(idx)
 	if err != nil {
 		return nil, vf("blocks/Block/in-range-error", "Block(%d) with Count()=%d failed: %v", idx, m.count, err)
 	}
@@ -364,15 +385,19 @@ func (m *mon) getBlock(idx int) ([]byte, *vio) {
 	return blk, nil
 }
 
-func (m *mon) checkPattern(idx int) *vio {
-	blk, v := m.getBlock(idx)
+func (m *mon) checkPattern(idx int) (v *vio) {
+	if p := guard(func() { v = m.checkPatternUnguarded(idx) }); p != nil {
+		return vf("blocks/Block/panic", "Block(%d) or reading its bytes panicked: %v (count=%d)", idx, p, m.count)
+	}
+	return v
+}
+
+func (m *mon) checkPatternUnguarded(idx int) *vio {
+	blk, v := m.getBlockUnguarded(idx)
 	if v != nil {
 		return v
 	}
-	var bad int
-	if p := guard(func() { bad = stamped(blk, idx, 0) }); p != nil {
-		return vf("blocks/Block/unreadable", "reading Block(%d) faulted: %v", idx, p)
-	}
+	bad := stamped(blk, idx, 0)
 	if bad >= 0 {
 		return vf("blocks/pattern/corrupted", "allocated block %d: byte %d is %#x, the pattern written after allocation has %#x", idx, bad, blk[bad], patByte(idx, bad, 0))
 	}
@@ -386,47 +411,88 @@ func (m *mon) checkAvailable(after string) *vio {
 	return nil
 }
 
-func (m *mon) levelClass() string {
+// tclass is a transition class: what was called, on which kind of index, with which outcome, at which fill level
+// relative to the segment boundaries.
+type tclass struct {
+	bs      int32
+	mmf     bool
+	op      byte  // A F B
+	idxKind uint8 // see idxKinds
+	idxSeg  int16
+	outcome uint8 // see outcomes
+	lvlKind uint8 // see lvlKinds
+	lvlSeg  int16
+}
+
+var (
+	idxKinds = []string{"-", "neg", "beyond", "first", "last", "byte0", "mid"}
+	outcomes = []string{"ok", "exhausted", "invalid", "notexist", "allocated", "free"}
+	lvlKinds = []string{"empty", "full", "edge", "post", "pre", "mid"}
+)
+
+const (
+	outOK = iota
+	outExhausted
+	outInvalid
+	outNotExist
+	outAllocated
+	outFree
+)
+
+func (c tclass) String() string {
+	be := "inmem"
+	if c.mmf {
+		be = "mmfile"
+	}
+	return fmt.Sprintf("bs%d/%s %c idx:%s/s%d %s level:%s/s%d", c.bs, be, c.op, idxKinds[c.idxKind], c.idxSeg, outcomes[c.outcome], lvlKinds[c.lvlKind], c.lvlSeg)
+}
+
+func (m *mon) levelClass() (uint8, int16) {
 	switch {
 	case m.n == 0:
-		return "empty"
+		return 0, 0
 	case m.n == m.count:
-		return "full"
+		return 1, 0
 	}
 	k, r := m.n/m.B, m.n%m.B
 	switch r {
 	case 0:
-		return fmt.Sprintf("edge%d", k)
+		return 2, int16(k)
 	case 1:
-		return fmt.Sprintf("post%d", k)
+		return 3, int16(k)
 	case m.B - 1:
-		return fmt.Sprintf("pre%d", k+1)
+		return 4, int16(k + 1)
 	}
-	return fmt.Sprintf("mid%d", k)
+	return 5, int16(k)
 }
 
-func (m *mon) idxClass(idx int) string {
+func (m *mon) idxClass(idx int) (uint8, int16) {
 	if idx < 0 {
-		return "neg"
+		return 1, 0
 	}
 	if idx >= m.count {
-		return "beyond"
+		return 2, 0
 	}
 	s, r := idx/m.B, idx%m.B
 	switch {
 	case r == 0:
-		return fmt.Sprintf("s%dfirst", s)
+		return 3, int16(s)
 	case r == m.B-1:
-		return fmt.Sprintf("s%dlast", s)
+		return 4, int16(s)
 	case r < 8:
-		return fmt.Sprintf("s%dbyte0", s)
+		return 5, int16(s)
 	}
-	return fmt.Sprintf("s%dmid", s)
+	return 6, int16(s)
 }
 
-func (m *mon) note(o string, idx int, outcome string) {
+// note records the transition class of the call just made (the fill level is the one after the call, except
+// for ArrangeBlock which passes the level before).
+func (m *mon) note(o byte, idx int, outcome uint8) {
 	if m.visit != nil {
-		m.visit(fmt.Sprintf("bs%d/%s %s %s %s %s", m.bs, m.st.backend, o, m.idxClass(idx), outcome, m.levelClass()))
+		c := tclass{bs: int32(m.bs), mmf: m.st.backend == "mmfile", op: o, outcome: outcome}
+		c.idxKind, c.idxSeg = m.idxClass(idx)
+		c.lvlKind, c.lvlSeg = m.levelClass()
+		m.visit(c)
 	}
 }
 
@@ -434,10 +500,6 @@ func (m *mon) note(o string, idx int, outcome string) {
 func (m *mon) arrange() (int, *vio) {
 	var idx int
 	var err error
-	lvl := ""
-	if m.visit != nil {
-		lvl = m.levelClass()
-	}
 	if p := guard(func() { idx, err = m.bks.ArrangeBlock() }); p != nil {
 		return -1, vf("blocks/Arrange/panic", "ArrangeBlock panicked with %d of %d allocated: %v", m.n, m.count, p)
 	}
@@ -449,7 +511,7 @@ func (m *mon) arrange() (int, *vio) {
 			return -1, vf("blocks/Arrange/exhausted-with-free-blocks", "ArrangeBlock reports ErrExhausted with %d of %d blocks allocated", m.n, m.count)
 		}
 		if m.visit != nil {
-			m.visit(fmt.Sprintf("bs%d/%s A - exhausted %s", m.bs, m.st.backend, lvl))
+			m.visit(tclass{bs: int32(m.bs), mmf: m.st.backend == "mmfile", op: 'A', outcome: outExhausted, lvlKind: 1})
 		}
 		return -1, nil
 	}
@@ -462,6 +524,7 @@ func (m *mon) arrange() (int, *vio) {
 	if m.n == m.count {
 		return -1, vf("blocks/Arrange/not-exhausted-when-full", "ArrangeBlock returned %d with all %d blocks allocated", idx, m.count)
 	}
+	m.note('A', idx, outOK) // level before the allocation
 	m.mark(idx)
 	blk, v := m.getBlock(idx)
 	if v != nil {
@@ -469,9 +532,6 @@ func (m *mon) arrange() (int, *vio) {
 	}
 	if p := guard(func() { stamp(blk, idx, 0) }); p != nil {
 		return idx, vf("blocks/Block/unwritable", "writing Block(%d) faulted: %v", idx, p)
-	}
-	if m.visit != nil {
-		m.visit(fmt.Sprintf("bs%d/%s A %s ok %s", m.bs, m.st.backend, m.idxClass(idx), lvl))
 	}
 	return idx, nil
 }
@@ -489,12 +549,12 @@ func (m *mon) free(idx int) *vio {
 		if !errors.Is(err, gerrors.ErrInvalid) {
 			return vf("blocks/Free/out-of-range-wrong-class", "FreeBlock(%d) with Count()=%d: error is not ErrInvalid: %v", idx, m.count, err)
 		}
-		m.note("F", idx, "invalid")
+		m.note('F', idx, outInvalid)
 	case m.alloc[idx]:
 		if err != nil {
 			return vf("blocks/Free/allocated-refused", "FreeBlock(%d) of an allocated block failed: %v", idx, err)
 		}
-		m.note("F", idx, "ok")
+		m.note('F', idx, outOK)
 		m.unmark(idx)
 	default:
 		if err == nil {
@@ -503,7 +563,7 @@ func (m *mon) free(idx int) *vio {
 		if !errors.Is(err, gerrors.ErrNotExist) {
 			return vf("blocks/Free/free-block-wrong-class", "FreeBlock(%d) of a free block: error is not ErrNotExist: %v", idx, err)
 		}
-		m.note("F", idx, "notexist")
+		m.note('F', idx, outNotExist)
 	}
 	return nil
 }
@@ -511,10 +571,10 @@ func (m *mon) free(idx int) *vio {
 func (m *mon) block(idx int) *vio {
 	if idx >= 0 && idx < m.count {
 		if m.alloc[idx] {
-			m.note("B", idx, "allocated")
+			m.note('B', idx, outAllocated)
 			return m.checkPattern(idx)
 		}
-		m.note("B", idx, "free")
+		m.note('B', idx, outFree)
 		_, v := m.getBlock(idx)
 		return v
 	}
@@ -529,7 +589,7 @@ func (m *mon) block(idx int) *vio {
 	if !errors.Is(err, gerrors.ErrInvalid) {
 		return vf("blocks/Block/out-of-range-wrong-class", "Block(%d) with Count()=%d: error is not ErrInvalid: %v", idx, m.count, err)
 	}
-	m.note("B", idx, "invalid")
+	m.note('B', idx, outInvalid)
 	return nil
 }
 
@@ -549,15 +609,22 @@ func (m *mon) light(after string, idx int) *vio {
 }
 
 // sweep calls Block for every index: length, address range, pattern of allocated ones, pairwise disjointness.
-func (m *mon) sweep() *vio {
-	for idx := 0; idx < m.count; idx++ {
-		if m.alloc[idx] {
-			if v := m.checkPattern(idx); v != nil {
-				return v
+func (m *mon) sweep() (v *vio) {
+	cur := 0
+	if p := guard(func() {
+		for idx := 0; idx < m.count && v == nil; idx++ {
+			cur = idx
+			if m.alloc[idx] {
+				v = m.checkPatternUnguarded(idx)
+			} else {
+				_, v = m.getBlockUnguarded(idx)
 			}
-		} else if _, v := m.getBlock(idx); v != nil {
-			return v
 		}
+	}); p != nil {
+		return vf("blocks/Block/panic", "Block(%d) or reading its bytes panicked: %v (count=%d)", cur, p, m.count)
+	}
+	if v != nil {
+		return v
 	}
 	mono := true
 	for i := 1; i < m.count; i++ {
@@ -587,6 +654,14 @@ func (m *mon) sweep() *vio {
 
 // oob probes the out-of-range classes of Block and FreeBlock (they must not change anything).
 func (m *mon) oob() *vio {
+	if m.lightOOB {
+		m.oobTurn++
+		i := [2]int{-1, m.count}[m.oobTurn&1]
+		if m.oobTurn&2 == 0 {
+			return m.block(i)
+		}
+		return m.free(i)
+	}
 	for _, i := range [2]int{-1, m.count} {
 		if v := m.block(i); v != nil {
 			return v
@@ -635,6 +710,39 @@ func (m *mon) reopenBytes(data []byte, how string) *vio {
 	}
 	var v *vio
 	if p := guard(func() {
+		if m.fastProbe {
+			// same decision without building count-n error values: every block the model has allocated must be
+			// released by FreeBlock (nil), ...
+			for _, i := range m.list {
+				if err := b.FreeBlock(int(i)); err != nil {
+					v = vf("blocks/reopen/"+how+"/set", "reopened allocator does not have block %d allocated (FreeBlock: %v), the model has (%d of %d allocated)", i, err, m.n, m.count)
+					return
+				}
+			}
+			// ... after which the reopened allocator must be empty: ArrangeBlock hands out every index exactly
+			// once before ErrExhausted. A block that the reopened bytes have allocated but the model has free
+			// would not come back.
+			seen := make([]bool, m.count)
+			for k := 0; k < m.count; k++ {
+				idx, err := b.ArrangeBlock()
+				if err != nil || idx < 0 || idx >= m.count || seen[idx] {
+					missing := -1
+					for i, s := range seen {
+						if !s {
+							missing = i
+							break
+						}
+					}
+					v = vf("blocks/reopen/"+how+"/set", "reopened allocator, after freeing the %d blocks the model has allocated, hands out only %d of %d blocks (ArrangeBlock: idx=%d err=%v; e.g. block %d never came back): it has blocks allocated that the model has free", m.n, k, m.count, idx, err, missing)
+					return
+				}
+				seen[idx] = true
+			}
+			if _, err := b.ArrangeBlock(); !errors.Is(err, gerrors.ErrExhausted) {
+				v = vf("blocks/reopen/"+how+"/set", "reopened allocator is not exhausted after %d allocations: %v", m.count, err)
+			}
+			return
+		}
 		for i := 0; i < m.count; i++ {
 			err := b.FreeBlock(i)
 			switch {
@@ -655,7 +763,7 @@ func (m *mon) reopenBytes(data []byte, how string) *vio {
 	if v != nil {
 		return v
 	}
-	if a := b.Available(); a != m.count {
+	if a := b.Available(); !m.fastProbe && a != m.count {
 		return vf("blocks/reopen/"+how+"/available-after-free-all", "reopened allocator after freeing every block: Available()=%d want %d", a, m.count)
 	}
 	return nil
@@ -963,92 +1071,94 @@ func geometrySweep(run *report.Run) {
 // ---------------------------------------------------------------------------------------------------
 // sequences on tiny geometries
 
-// runSeq runs prefill Arranges and then w.Ops. With monitorAll every step gets the full monitor; otherwise the
-// prefix is replayed without monitors (it was monitored when the parent node was visited; the allocator is
-// deterministic) and only the last operation — or, with no operation, the start state — is monitored.
-func runSeq(w witness, monitorAll bool, visit func(string), state func(bs, segs int, bits uint64)) (v *vio, herr error) {
+// replayRaw applies o without monitors (used for prefixes that were monitored before: the allocator is
+// deterministic). It only keeps the model and the patterns in step; anything unexpected is returned as text.
+func (m *mon) replayRaw(o op) (bad string) {
+	if p := guard(func() {
+		switch o.K {
+		case opArrange:
+			idx, err := m.bks.ArrangeBlock()
+			if err == nil {
+				if idx < 0 || idx >= m.count || m.alloc[idx] {
+					bad = fmt.Sprintf("ArrangeBlock returned %d", idx)
+					return
+				}
+				m.mark(idx)
+				blk, err := m.bks.Block(idx)
+				if err != nil || len(blk) != m.bs {
+					bad = fmt.Sprintf("Block(%d): %v", idx, err)
+					return
+				}
+				stamp(blk, idx, 0)
+			}
+		case opFree:
+			if m.bks.FreeBlock(o.I) == nil {
+				if o.I < 0 || o.I >= m.count || !m.alloc[o.I] {
+					bad = fmt.Sprintf("FreeBlock(%d) returned nil", o.I)
+					return
+				}
+				m.unmark(o.I)
+			}
+		case opBlock:
+			m.bks.Block(o.I)
+		}
+	}); p != nil {
+		bad = fmt.Sprintf("panic: %v", p)
+	}
+	return bad
+}
+
+// monitored applies o with the result oracle and then the full monitor (all patterns, all address ranges,
+// out-of-range probes, reopen on a copy).
+func (m *mon) monitored(o op, label string) (v *vio) {
+	switch o.K {
+	case opArrange:
+		_, v = m.arrange()
+	case opFree:
+		v = m.free(o.I)
+	case opBlock:
+		v = m.block(o.I)
+	}
+	if v == nil {
+		v = m.full(label)
+	}
+	return v
+}
+
+func (m *mon) describe(w witness, step int, o op, v *vio) {
+	v.what = fmt.Sprintf("bs=%d segments=%d extra=%d prefill=%d, step %d %s of [%s]: %s", m.bs, m.segs, m.size-int64(m.segs)*m.segSz, w.Prefill, step, o, opsText(w.Ops), v.what)
+}
+
+// runSeq runs w.Prefill Arranges and then w.Ops on a fresh allocator, every step under the full monitor. It is the
+// reference execution: replays use it, and every violation found by the snapshot-based enumeration below is
+// confirmed through it before it is reported.
+func runSeq(w witness, visit func(tclass)) (v *vio, herr error) {
 	m, v, herr := newMon(w.BS, w.Size, w.Fit, w.Backend)
 	if v != nil || herr != nil {
 		return v, herr
 	}
 	defer m.close()
-	total := w.Prefill + len(w.Ops)
-	opAt := func(i int) op {
-		if i < w.Prefill {
-			return op{opArrange, 0}
-		}
-		return w.Ops[i-w.Prefill]
+	m.visit = visit
+	if v := m.full("open"); v != nil {
+		return v, nil
 	}
-	if total == 0 || monitorAll {
-		m.visit = visit
-		if v := m.full("open"); v != nil {
+	for i := 0; i < w.Prefill+len(w.Ops); i++ {
+		o := op{opArrange, 0}
+		if i >= w.Prefill {
+			o = w.Ops[i-w.Prefill]
+		}
+		if v := m.monitored(o, fmt.Sprintf("step %d %s", i-w.Prefill, o)); v != nil {
+			m.describe(w, i-w.Prefill, o, v)
 			return v, nil
 		}
-	}
-	for i := 0; i < total; i++ {
-		o := opAt(i)
-		if !monitorAll && i < total-1 {
-			// unmonitored replay of a prefix that has been monitored before
-			var bad string
-			if p := guard(func() {
-				switch o.K {
-				case opArrange:
-					idx, err := m.bks.ArrangeBlock()
-					if err == nil {
-						if idx < 0 || idx >= m.count || m.alloc[idx] {
-							bad = fmt.Sprintf("ArrangeBlock returned %d", idx)
-							return
-						}
-						m.mark(idx)
-						blk, err := m.bks.Block(idx)
-						if err != nil || len(blk) != m.bs {
-							bad = fmt.Sprintf("Block(%d): %v", idx, err)
-							return
-						}
-						stamp(blk, idx, 0)
-					}
-				case opFree:
-					if m.bks.FreeBlock(o.I) == nil {
-						if o.I < 0 || o.I >= m.count || !m.alloc[o.I] {
-							bad = fmt.Sprintf("FreeBlock(%d) returned nil", o.I)
-							return
-						}
-						m.unmark(o.I)
-					}
-				case opBlock:
-					m.bks.Block(o.I)
-				}
-			}); p != nil || bad != "" {
-				return vf("blocks/nondeterministic", "step %d %s behaved differently in a replay of an already monitored prefix: %s %v", i, o, bad, p), nil
-			}
-			continue
-		}
-		m.visit = visit
-		switch o.K {
-		case opArrange:
-			_, v = m.arrange()
-		case opFree:
-			v = m.free(o.I)
-		case opBlock:
-			v = m.block(o.I)
-		}
-		if v == nil {
-			v = m.full(fmt.Sprintf("step %d %s", i-w.Prefill, o))
-		}
-		if v != nil {
-			v.what = fmt.Sprintf("bs=%d segments=%d extra=%d prefill=%d, step %d %s: %s", m.bs, m.segs, m.size-int64(m.segs)*m.segSz, w.Prefill, i-w.Prefill, o, v.what)
-			return v, nil
-		}
-	}
-	if state != nil && m.count <= 48 {
-		state(m.bs, m.segs, m.bits())
 	}
 	return nil, nil
 }
 
 type enumUnit struct {
-	w     witness
-	depth int
+	w     witness // start: geometry, prefill, prefix w.Ops
+	depth int     // sequences up to this many operations (prefix included)
+	only  bool    // visit only the node w.Ops itself (interior node above the split level)
 	alpha []op
 	nodes *atomic.Int64
 }
@@ -1071,41 +1181,149 @@ func freeIndices(bs, segs int) []int {
 	return l
 }
 
-// enumerate visits every extension of u.w.Ops up to u.depth; every node (prefix) is one monitored case.
-func enumerate(run *report.Run, u enumUnit, visit func(string), state func(int, int, uint64)) {
-	var rec func(ops []op)
-	rec = func(ops []op) {
-		w := u.w
-		w.Ops = ops
-		v, herr := runSeq(w, false, visit, state)
-		run.Eval(1)
-		u.nodes.Add(1)
-		if herr != nil {
-			run.Inconclusive(herr.Error())
-			return
-		}
-		if v != nil {
-			w.Text = opsText(ops)
-			run.Violation(v.sig, v.what, w)
-			return // the model is tainted below this node
-		}
-		if len(ops) >= u.depth {
-			return
-		}
-		for _, o := range u.alpha {
-			rec(append(append(make([]op, 0, len(ops)+1), ops...), o))
-		}
-	}
-	rec(u.w.Ops)
+// frame is a snapshot of the complete state of allocator + model: the Blocks value (hint index, counter; its
+// mutex is unlocked whenever a snapshot is taken), the bytes of the buffer, and the model's set.
+type frame struct {
+	blocks cbytes.Blocks
+	bytes  []byte
+	alloc  []bool
+	pos    []int32
+	list   []int32
+	n      int
 }
 
-func enumeration(run *report.Run, maxDepth int, nodeCap int64) {
+func (m *mon) save(f *frame) {
+	f.blocks = *m.bks // a copy of the struct including its (unlocked) mutex is exactly what is wanted here
+	f.bytes = append(f.bytes[:0], m.base...)
+	f.alloc = append(f.alloc[:0], m.alloc...)
+	f.pos = append(f.pos[:0], m.pos...)
+	f.list = append(f.list[:0], m.list...)
+	f.n = m.n
+}
+
+func (m *mon) restore(f *frame) {
+	*m.bks = f.blocks
+	copy(m.base, f.bytes)
+	copy(m.alloc, f.alloc)
+	copy(m.pos, f.pos)
+	m.list = append(m.list[:0], f.list...)
+	m.n = f.n
+}
+
+// enumerate visits every extension of u.w.Ops up to u.depth operations; every node (= every sequence, prefix-
+// closed) is one monitored case: the last operation of the sequence is applied under the result oracle and the
+// full monitor. The state before each operation is re-established from a snapshot (frame) instead of re-running
+// the prefix; a violation found this way is confirmed by the reference execution runSeq before it is reported.
+func enumerate(run *report.Run, u enumUnit, visit func(tclass), state func(bs, segs int, bits uint64)) {
+	w := u.w
+	m, v, herr := newMon(w.BS, w.Size, w.Fit, w.Backend)
+	if herr != nil {
+		run.Inconclusive(herr.Error())
+		return
+	}
+	if v != nil {
+		run.Eval(1)
+		run.Violation(v.sig, v.what, w)
+		return
+	}
+	defer m.close()
+	report := func(path []op, v *vio) {
+		ww := w
+		ww.Ops = append([]op(nil), path...)
+		ww.Text = opsText(ww.Ops)
+		cv, herr := runSeq(ww, nil)
+		switch {
+		case herr != nil:
+			run.Inconclusive(herr.Error())
+		case cv != nil:
+			run.Violation(cv.sig, cv.what, ww)
+		default:
+			run.Inconclusive(fmt.Sprintf("enumeration: %s (%s) after prefill=%d [%s] on bs=%d size=%d was not reproduced by the reference execution", v.sig, v.what, w.Prefill, ww.Text, w.BS, w.Size))
+		}
+	}
+	setMode := func(depth int) {
+		// deep nodes: cheap form of the reopen probe (same decision, see reopenBytes), one out-of-range probe per node
+		m.fastProbe, m.lightOOB = depth > 4, depth > 4
+	}
+	// reach the unit's own node: everything but its last operation unmonitored (monitored by another unit)
+	pre := w.Prefill + len(w.Ops)
+	for i := 0; i < pre-1 || (i < pre && len(w.Ops) == 0); i++ {
+		o := op{opArrange, 0}
+		if i >= w.Prefill {
+			o = w.Ops[i-w.Prefill]
+		}
+		if bad := m.replayRaw(o); bad != "" {
+			// a prefix violating the model is reported by the unit that monitors it
+			return
+		}
+	}
+	m.visit = visit
+	u.nodes.Add(1)
+	run.Eval(1)
+	setMode(len(w.Ops))
+	if len(w.Ops) == 0 {
+		v = m.full("start state")
+	} else {
+		o := w.Ops[len(w.Ops)-1]
+		v = m.monitored(o, fmt.Sprintf("step %d %s", len(w.Ops)-1, o))
+	}
+	if v != nil {
+		report(w.Ops, v)
+		return
+	}
+	if state != nil {
+		state(m.bs, m.segs, m.bits())
+	}
+	if u.only || len(w.Ops) >= u.depth {
+		return
+	}
+	frames := make([]frame, u.depth+1)
+	path := append(make([]op, 0, u.depth), w.Ops...)
+	var dfs func()
+	dfs = func() {
+		d := len(path)
+		f := &frames[d]
+		m.save(f)
+		for _, o := range u.alpha {
+			path = append(path, o)
+			u.nodes.Add(1)
+			run.Eval(1)
+			setMode(d + 1)
+			m.oobTurn = d + o.I + o.K
+			if v := m.monitored(o, o.String()); v != nil {
+				report(path, v)
+			} else {
+				if state != nil {
+					state(m.bs, m.segs, m.bits())
+				}
+				if d+1 < u.depth {
+					dfs()
+				}
+			}
+			path = path[:d]
+			m.restore(f)
+		}
+	}
+	dfs()
+}
+
+// enumPlan bounds the enumeration: no sequence is longer than maxDepth; the from-empty family of geometry
+// (bs, segments) is enumerated to emptyDepth(bs, segments); every aimed family (larger alphabet, prefilled start)
+// to the largest depth whose number of sequences of that length stays <= leafCap.
+type enumPlan struct {
+	maxDepth   int
+	emptyDepth func(bs, segs int) int
+	leafCap    int64
+}
+
+func enumeration(run *report.Run, plan enumPlan) {
+	maxDepth, nodeCap := plan.maxDepth, plan.leafCap
 	type lstate struct {
-		classes map[string]struct{}
+		classes map[tclass]struct{}
 		states  map[uint64]struct{}
 	}
 	var mu sync.Mutex
-	classes := map[string]struct{}{}
+	classes := map[tclass]struct{}{}
 	states := map[uint64]struct{}{}
 
 	units := make(chan enumUnit, 4096)
@@ -1114,10 +1332,10 @@ func enumeration(run *report.Run, maxDepth int, nodeCap int64) {
 		wg.Add(1)
 		go func() {
 			defer wg.Done()
-			l := lstate{map[string]struct{}{}, map[uint64]struct{}{}}
-			visit := func(s string) { l.classes[s] = struct{}{} }
+			l := lstate{map[tclass]struct{}{}, map[uint64]struct{}{}}
+			visit := func(c tclass) { l.classes[c] = struct{}{} }
 			state := func(bs, segs int, bits uint64) {
-				l.states[bits|uint64(bs)<<48|uint64(segs)<<52] = struct{}{}
+				l.states[bits*0x9e3779b97f4a7c15^uint64(bs*8+segs)*0xc2b2ae3d27d4eb4f] = struct{}{}
 			}
 			for u := range units {
 				enumerate(run, u, visit, state)
@@ -1156,8 +1374,11 @@ func enumeration(run *report.Run, maxDepth int, nodeCap int64) {
 		b := &bound{BS: bs, Segments: segs, Extra: extra, Prefill: prefill, Alphabet: opsText(alpha), Depth: depth, nodes: new(atomic.Int64)}
 		bounds = append(bounds, b)
 		base := witness{Kind: "seq", BS: bs, Size: int64(segs)*segSize(bs) + extra, Fit: extra == 0, Backend: "inmem", Prefill: prefill}
-		// the root and the first level are visited here, the subtrees below depth 2 are the work units
+		// the subtrees below the split level are the work units; the nodes above it are single-node units
 		split := 2
+		if depth >= 9 {
+			split = 4
+		}
 		if depth < split {
 			split = depth
 		}
@@ -1172,7 +1393,7 @@ func enumeration(run *report.Run, maxDepth int, nodeCap int64) {
 			// interior node above the split: monitored once, here
 			w := base
 			w.Ops = ops
-			units <- enumUnit{w: w, depth: len(ops), alpha: alpha, nodes: b.nodes}
+			units <- enumUnit{w: w, depth: depth, only: true, alpha: alpha, nodes: b.nodes}
 			for _, o := range alpha {
 				gen(append(append(make([]op, 0, len(ops)+1), ops...), o))
 			}
@@ -1186,7 +1407,7 @@ func enumeration(run *report.Run, maxDepth int, nodeCap int64) {
 			count := B * segs
 			// (1) from the empty allocator, full depth, over the indices reachable at that depth
 			core := []op{{opArrange, 0}, {opFree, 0}, {opFree, 1}, {opFree, 2}, {opFree, 3}}
-			emit(bs, segs, 0, 0, core, maxDepth)
+			emit(bs, segs, 0, 0, core, min(maxDepth, plan.emptyDepth(bs, segs)))
 			// (2) aimed starts: K blocks allocated (just below each segment boundary, and full), every
 			// sequence over Arrange and Free of the 4 lowest, the segment-boundary and the highest indices
 			var alpha []op
@@ -1212,6 +1433,23 @@ func enumeration(run *report.Run, maxDepth int, nodeCap int64) {
 			}
 		}
 	}
+	// (4) headers of more than two bytes (bs=4: 32 blocks per segment), where the free-hint can point into the
+	// middle of a header: Free of indices in different header bytes around it
+	for segs := 1; segs <= 2; segs++ {
+		B := 32
+		count := B * segs
+		idx := []int{0, 7, 8, 16, 24, B - 1}
+		if segs == 2 {
+			idx = append(idx, B, count-1)
+		}
+		alpha := []op{{opArrange, 0}}
+		for _, i := range idx {
+			alpha = append(alpha, op{opFree, i})
+		}
+		for _, k := range []int{9, 17, B - 2, count} {
+			emit(4, segs, 0, k, alpha, depthFor(len(alpha), nodeCap))
+		}
+	}
 	close(units)
 	wg.Wait()
 
@@ -1225,10 +1463,10 @@ func enumeration(run *report.Run, maxDepth int, nodeCap int64) {
 	run.Add("enumerated_sequences", total)
 	run.Add("enumerated_model_states", int64(len(states)))
 	for k := range states {
-		run.Distinct(k ^ 0x9e3779b97f4a7c15)
+		run.Distinct(k)
 	}
 	for k := range classes {
-		run.DistinctStr(k)
+		run.DistinctStr(k.String())
 	}
 	run.Sample(fmt.Sprintf("enumeration: bs=1, 3 segments (24 blocks, 27 bytes), 22 blocks allocated, then every sequence over {%s} to depth %d, full monitor + reopen after every operation", opsText(append([]op{{opArrange, 0}}, func() []op {
 		var l []op
@@ -1247,7 +1485,7 @@ func enumeration(run *report.Run, maxDepth int, nodeCap int64) {
 // runs after every operation, the full monitor (all patterns, all address ranges, reopen) every w.Every
 // operations and whenever a target level is first reached. On a mapped file the full monitor additionally
 // rotates through second mapping / Close+reopen / os.ReadFile.
-func runWalk(w witness, visit func(string), cnt map[string]int64) (v *vio, failAt int, herr error) {
+func runWalk(w witness, visit func(tclass), cnt map[string]int64) (v *vio, failAt int, herr error) {
 	m, v, herr := newMon(w.BS, w.Size, w.Fit, w.Backend)
 	if v != nil || herr != nil {
 		return v, -1, herr
@@ -1275,10 +1513,18 @@ func runWalk(w witness, visit func(string), cnt map[string]int64) (v *vio, failA
 	}
 	ti, hovered, reached := 0, 0, false
 	oobs := []int{-1, count, count + 1, -count, count + B, math.MaxInt, math.MinInt, -B}
-	mmfTurn := 0
+	maxKey := fmt.Sprintf("max_allocated_bs%d", m.bs)
+	mmfTurn, fulls := 0, 0
 	fullCheck := func(after string) (*vio, error) {
 		if cnt != nil {
 			cnt["full_checks"]++
+		}
+		fulls++
+		if w.Every > 0 && w.Every < 100 {
+			// frequent full monitor: the literal FreeBlock-on-every-index form of the reopen probe every 16th time,
+			// the cheap form (same decision, see reopenBytes) otherwise
+			m.fastProbe = fulls%16 != 1
+			m.lightOOB = m.fastProbe
 		}
 		if v := m.full(after); v != nil {
 			return v, nil
@@ -1410,8 +1656,8 @@ func runWalk(w witness, visit func(string), cnt map[string]int64) (v *vio, failA
 			v.what = fmt.Sprintf("walk bs=%d segments=%d size=%d %s seed=%d, step %d %s (%d of %d allocated): %s", m.bs, m.segs, m.size, w.Backend, w.Seed, step, o, m.n, m.count, v.what)
 			return v, step, nil
 		}
-		if cnt != nil && int64(m.n) > cnt["max_allocated_bs"+fmt.Sprint(m.bs)] {
-			cnt["max_allocated_bs"+fmt.Sprint(m.bs)] = int64(m.n)
+		if cnt != nil && int64(m.n) > cnt[maxKey] {
+			cnt[maxKey] = int64(m.n)
 		}
 	}
 	// drain completely, then the allocator must be as good as new
@@ -1436,12 +1682,12 @@ func runWalk(w witness, visit func(string), cnt map[string]int64) (v *vio, failA
 
 type walkStats struct {
 	mu      sync.Mutex
-	classes map[string]struct{}
+	classes map[tclass]struct{}
 	cnt     map[string]int64
 }
 
 func runWalks(run *report.Run, ws []witness, lanes int) {
-	st := &walkStats{classes: map[string]struct{}{}, cnt: map[string]int64{}}
+	st := &walkStats{classes: map[tclass]struct{}{}, cnt: map[string]int64{}}
 	var wg sync.WaitGroup
 	ch := make(chan witness)
 	for i := 0; i < lanes; i++ {
@@ -1449,9 +1695,9 @@ func runWalks(run *report.Run, ws []witness, lanes int) {
 		go func() {
 			defer wg.Done()
 			for w := range ch {
-				classes := map[string]struct{}{}
+				classes := map[tclass]struct{}{}
 				cnt := map[string]int64{}
-				v, failAt, herr := runWalk(w, func(s string) { classes[s] = struct{}{} }, cnt)
+				v, failAt, herr := runWalk(w, func(c tclass) { classes[c] = struct{}{} }, cnt)
 				if herr != nil {
 					run.Inconclusive(fmt.Sprintf("walk bs=%d %s: %v", w.BS, w.Backend, herr))
 					continue
@@ -1485,7 +1731,7 @@ func runWalks(run *report.Run, ws []witness, lanes int) {
 	close(ch)
 	wg.Wait()
 	for k := range st.classes {
-		run.DistinctStr(k)
+		run.DistinctStr(k.String())
 	}
 	for k, n := range st.cnt {
 		if strings.HasPrefix(k, "max_") {
@@ -1778,7 +2024,7 @@ func concCases(run *report.Run, heavy bool) []witness {
 	iter := 20_000
 	if heavy {
 		gs = []int{8, 12, 16}
-		iter = run.Pick(40_000, 300_000)
+		iter = run.Pick(8_000, 150_000)
 	} else if run.Thorough() {
 		iter = 100_000
 	}
@@ -1846,7 +2092,7 @@ func TestCheck(t *testing.T) {
 		// race pass: the concurrent workload in full, and a small sequential part so that the monitors themselves
 		// run under the detector
 		concurrency(run, true)
-		enumeration(run, 4, 2000)
+		enumeration(run, enumPlan{maxDepth: 4, emptyDepth: func(int, int) int { return 4 }, leafCap: 2000})
 		return
 	}
 	phases := map[string]float64{}
@@ -1855,8 +2101,19 @@ func TestCheck(t *testing.T) {
 	defer func() { run.Note("phase_wall_s", phases) }()
 	geometrySweep(run)
 	lap("geometry")
-	maxDepth := run.Pick(8, 11)
-	enumeration(run, maxDepth, int64(run.Pick(40_000, 3_000_000)))
+	plan := enumPlan{maxDepth: 8, emptyDepth: func(int, int) int { return 8 }, leafCap: 300_000}
+	if run.Thorough() {
+		plan = enumPlan{maxDepth: 11, leafCap: 2_000_000, emptyDepth: func(bs, segs int) int {
+			switch {
+			case bs == 1 && segs == 2: // the 9th allocation crosses into the second segment
+				return 11
+			case bs == 1 || segs == 1:
+				return 10
+			}
+			return 9
+		}}
+	}
+	enumeration(run, plan)
 	lap("enumeration")
 	inmem, mmf, huge := walkCases(run)
 	var wg sync.WaitGroup
@@ -1901,7 +2158,7 @@ func replay(run *report.Run, path string) {
 	case "geom":
 		v, _, herr = geomCase(w)
 	case "seq":
-		v, herr = runSeq(w, true, nil, nil)
+		v, herr = runSeq(w, nil)
 	case "walk":
 		v, _, herr = runWalk(w, nil, nil)
 	case "conc":
